@@ -9,7 +9,8 @@ void harness(void)
     xv_ghost_havoc();
     xv_ctl_ghost_havoc();
     xv_ctl_g_foreign = nondet_bool(); xv_ctl_g_fev = nondet_int();
-    struct client *client; struct ctl *ctl;
+    struct client *client = NULL;   /* (not left uninitialised: symex would add a 38 KB "unknown object" of type struct client to its points-to set; pointer_in_range in the contract assigns it) */
+    struct ctl *ctl;
     int rv = client_receive(client, ctl);
     if (rv == 0 && !xv_ctl_readable) XV_CANARY("nothing to read");
     if (rv == 0 && xv_ctl_readable && xv_ctl_recv_rc == -1) XV_CANARY("EAGAIN");
@@ -18,5 +19,5 @@ void harness(void)
     if (rv == -1 && xv_ctl_recv_rc == 3) XV_CANARY("request shorter than its type field");
     if (rv == -1 && xv_ctl_recv_rc == (long)sizeof(struct ctl_proto_msg)) XV_CANARY("unknown request type");
     if (rv == 0 && xv_ctl_recv_rc == (long)sizeof(struct ctl_proto_msg) && xv_ctl_req_type == ctl_proto_type_get_attr_req && xv_ctl_req_key) XV_CANARY("get tls.key");
-    if (rv == 0 && xv_ctl_recv_rc == (long)sizeof(struct ctl_proto_msg) && xv_ctl_req_type == ctl_proto_type_get_all_attr_req && xv_ctl_ci == 1) XV_CANARY("get-all on the second session");
+    if (rv == 0 && xv_ctl_recv_rc == (long)sizeof(struct ctl_proto_msg) && xv_ctl_req_type == ctl_proto_type_get_all_attr_req) XV_CANARY("get-all");
 }
